@@ -20,3 +20,18 @@ impl vstd::std_specs::cmp::OrdSpecImpl for BigNum {
     }
 }
 impl Ord for BigNum { #[verifier::external_body] fn cmp(&self, o: &BigNum) -> (r: core::cmp::Ordering) { unimplemented!() } }
+
+/// std::collections::BTreeMap as far as this code uses it: an entry sequence in ascending key order (R-btree); the read-only part of
+/// its API is given (ASSUMED std semantics) so that an edit that starts using another reader still reaches the verifier
+pub struct BTreeMap<K, V> { pub entries: Vec<(K, V)> }
+impl<K, V> BTreeMap<K, V> {
+    #[verifier::external_body] pub fn iter(&self) -> (r: core::slice::Iter<'_, (K, V)>)
+        ensures r.remaining() == refs(self.entries@), r.obeys_prophetic_iter_laws(), r.decrease() is Some { unimplemented!() }
+    #[verifier::external_body] pub fn len(&self) -> (r: usize) ensures r == self.entries@.len() { unimplemented!() }
+    #[verifier::external_body] pub fn is_empty(&self) -> (r: bool) ensures r == (self.entries@.len() == 0) { unimplemented!() }
+    #[verifier::external_body] pub fn contains_key(&self, k: &K) -> (r: bool)
+        ensures r == (exists|i: int| 0 <= i < self.entries@.len() && self.entries@[i].0 == *k) { unimplemented!() }
+    #[verifier::external_body] pub fn get(&self, k: &K) -> (r: Option<&V>)
+        ensures r is Some ==> (exists|i: int| 0 <= i < self.entries@.len() && self.entries@[i].0 == *k && self.entries@[i].1 == *r->Some_0),
+                r is None ==> !(exists|i: int| 0 <= i < self.entries@.len() && self.entries@[i].0 == *k) { unimplemented!() }
+}
